@@ -4,6 +4,7 @@ pub mod alloc;
 pub mod alpha;
 pub mod core;
 pub mod net;
+pub mod netsweep;
 pub mod oracle;
 pub mod util;
 
